@@ -535,6 +535,25 @@ func c05Republish(p *chk.Prog, r *chk.Report) {
 		g := db.Graph()
 		for _, s := range g.FindPat("delete(RECV.svcAds, N)") {
 			w := g.MustPass(s, nil, true, db.ContainsPat("RECV.updateAds()"))
+			if w.Found {
+				// decided again with the values set on the way (the removal inside an expanded helper that answers whether
+				// there was anything to remove: `r = true; ..; if !r { return nil }`): every return is reached either without
+				// the deletion or with the republication behind it
+				isDel := func(n ast.Node) bool { return n == s.Top }
+				isUpd := db.ContainsPat("RECV.updateAds()")
+				okAll := true
+				for _, rt := range g.Returns() {
+					if isUpd(rt.Node) {
+						continue
+					}
+					if !g.Dominated(rt, chk.GOr(chk.GNot(chk.GEvent(isDel)), chk.GEvent(isUpd))) {
+						okAll = false
+					}
+				}
+				if okAll && len(g.Returns()) > 0 {
+					w.Found = false
+				}
+			}
 			x.Check("DeleteBalancer:republish", posOf(w, db), !w.Found, "", "a service's advertisements are deleted without republishing (the routes stay announced)")
 		}
 	}
